@@ -36,9 +36,14 @@ class T:
 
 
 class Field:
-    def __init__(self, idx, ty, tag=None, codec="d", skip=False, is_b=False, name=None, style=0):
+    def __init__(self, idx, ty, tag=None, codec="d", skip=False, is_b=False, name=None, style=0, spell=None):
         self.idx, self.ty, self.tag, self.codec, self.skip, self.is_b, self.name, self.style = idx, ty, tag, codec, skip, is_b, name, style
         self.generic = False      # declared as the type parameter `T`
+        # how the declared type is *spelled* in Rust when it is nil-capable without being literally `Option<..>`:
+        # 'generic' (type parameter instantiated at Option<..>), 'alias' (`type A = Option<..>`), 'newtype'
+        # (crate::rt::NilOpt, a hand-written Encode/Decode overriding is_nil/nil; model type opt(u16)).  The model
+        # sees the same `opt(..)` field type in all cases (same is_nil / nil semantics under the default codec).
+        self.spell = spell
 
 
 class Variant:
@@ -55,7 +60,14 @@ def t_vec(e): return T("vec", e=e)
 def t_st(fields, enc="d", tag=None, shape="n", transparent=False):
     return T("st", fields=fields, enc=enc, tag=tag, shape=shape, transparent=transparent, name=None, generic=None)
 def t_en(variants, enc="d", tag=None, index_only=False):
-    return T("en", variants=variants, enc=enc, tag=tag, index_only=index_only, name=None)
+    return T("en", variants=variants, enc=enc, tag=tag, index_only=index_only, name=None, generic=None)
+
+
+def spell_ok(f, spell):
+    """may the declared type of field f be spelled that way?"""
+    if f.skip or f.codec != "d" or f.ty.kind != "opt" or has_lt(f.ty) or contains_codec_blob(f.ty): return False
+    if spell == "newtype": return f.ty.e.kind == "int" and f.ty.e.k == "u16"
+    return True
 
 
 def ptag(t): return "-" if t is None else str(t)
@@ -466,6 +478,10 @@ class SGen:
             ty, codec = self.field_type(depth)
             f = Field(idx[i], ty, tag=self.tag(0.2), codec=codec, style=r.randrange(4))
             f.is_b = needs_b(ty) or r.random() < 0.15
+            if r.random() < 0.2:
+                sp = r.choice(["generic", "alias", "alias", "newtype"])
+                if sp == "newtype" and ty.kind == "opt" and codec == "d" and r.random() < 0.5: f.ty = ty = t_opt(t_int("u16"))
+                if spell_ok(f, sp): f.spell = sp
             fs.append(f)
         for _ in range(nskip):
             t = r.choice([t_int(r.choice(INTS)), t_bool(), t_text("string"), t_opt(t_int("u8")), t_vec(t_int("u16")), t_opt(t_blob("bytevec"))])
@@ -575,6 +591,17 @@ def core_schemas(rng):
     S.append(t_en([Variant(1, "n", []), Variant(0, "p", [])]))
     S.append(t_en([Variant(0, "p", [F(0, t_int("u32"), codec="x"), F(1, o8())]), Variant(1, "n", [F(3, t_int("u32"), codec="x")], enc="m")]))
     S.append(t_en([Variant(0, "p", [F(1, t_int("u8")), F(0, t_text("string"), skip=True), F(0, o8())])]))
+    # nil-capable field types that are NOT spelled `Option<..>`: type parameter, type alias, hand-written newtype
+    # (array and map encoding; the nil value in trailing and in non-trailing position; structs, tuple structs, variants)
+    o16 = lambda: t_opt(t_int("u16"))
+    for sp in ("generic", "alias", "newtype"):
+        for enc in ("d", "m"):
+            S.append(t_st([F(0, t_int("u8")), F(1, o16(), spell=sp)], enc=enc))                       # trailing
+            S.append(t_st([F(0, o16(), spell=sp), F(1, t_int("u8"))], enc=enc, shape="p"))            # non-trailing
+            S.append(t_st([F(0, o16(), spell=sp), F(2, t_opt(t_text("string")), spell="alias"), F(5, o16(), spell="newtype")], enc=enc))   # all absent possible
+            S.append(t_en([Variant(0, "p", [F(0, t_int("u8")), F(1, o16(), spell=sp)], enc=enc),
+                           Variant(1, "n", [F(0, o16(), spell=sp), F(3, t_bool())], enc=enc)]))
+    S.append(t_st([F(0, t_int("u8")), F(1, t_opt(t_vec(t_int("u8"))), spell="generic"), F(2, t_opt(t_opt(t_int("u8"))), spell="alias")]))
     # nesting
     inner = t_st([F(0, t_int("u8")), F(1, o8())])
     e1 = t_en([Variant(0), Variant(1, "p", [F(0, t_int("u8"))])])
@@ -630,7 +657,9 @@ def twin_fields(fields, rng):
     for p in perm:
         f = fields[p]
         t2, fm = twin(f.ty, rng)
-        g = Field(f.idx, t2, f.tag, f.codec, f.skip, f.is_b or (not f.skip and rng.random() < 0.5), style=(f.style + 1 + rng.randrange(3)) % 4)
+        g = Field(f.idx, t2, f.tag, f.codec, f.skip, f.is_b or (not f.skip and rng.random() < 0.5), style=(f.style + 1 + rng.randrange(3)) % 4,
+                  spell=(None if f.spell else ("alias" if rng.random() < 0.3 else None)))
+        if g.spell and not spell_ok(g, g.spell): g.spell = None
         fs.append(g); fmaps.append(fm)
     return fs, perm, fmaps
 
@@ -899,9 +928,10 @@ class Emitter:
             ty.generic = src.generic
             for f, g in zip(ty.fields, src.fields): f.generic = g.generic
         else:
+            ty.generic = src.generic
             for v, w in zip(ty.variants, src.variants):
                 v.name = w.name
-                for f, g in zip(v.fields, w.fields): f.name = g.name
+                for f, g in zip(v.fields, w.fields): f.name = g.name; f.generic = g.generic
 
     def assign_member_names(self, ty):
         r = self.rng
@@ -912,14 +942,26 @@ class Emitter:
         if ty.kind == "st":
             for f, n in zip(ty.fields, fresh(len(ty.fields))): f.name = n
             # generics where cheap: one plain, owned, default-codec field becomes the type parameter
-            cands = [f for f in ty.fields if not f.skip and f.codec == "d" and f.tag is None and not has_lt(f.ty)
-                     and not contains_codec_blob(f.ty) and not ty.transparent]
-            if cands and r.random() < 0.12:
-                g = r.choice(cands); g.generic = True; ty.generic = g
+            self.pick_generic(ty, ty.fields, not ty.transparent)
         else:
             for v, n in zip(ty.variants, fresh(len(ty.variants), True)):
                 v.name = n
                 for f, m in zip(v.fields, fresh(len(v.fields))): f.name = m
+            self.pick_generic(ty, [f for v in ty.variants for f in v.fields], True)
+
+    def pick_generic(self, ty, fields, allowed):
+        """one field becomes the type parameter `T`: the first one spelled 'generic', else (sometimes) a random plain one;
+        further 'generic' spellings of the same type fall back to an alias."""
+        r = self.rng
+        want = [f for f in fields if f.spell == "generic"]
+        if want and allowed:
+            g = want[0]; g.generic = True; ty.generic = g
+            for f in want[1:]: f.spell = "alias"
+            return
+        for f in want: f.spell = "alias"
+        cands = [f for f in fields if not f.skip and f.codec == "d" and f.spell is None and not has_lt(f.ty) and not contains_codec_blob(f.ty)]
+        if allowed and cands and r.random() < 0.12:
+            g = r.choice(cands); g.generic = True; ty.generic = g
 
     # ---- types as Rust text
     def rty(self, ty):
@@ -932,7 +974,7 @@ class Emitter:
         if k == "vec": return f"Vec<{self.rty(ty.e)}>"
         args = []
         if has_lt(ty): args.append("'a")
-        if k == "st" and ty.generic is not None: args.append(self.rty(ty.generic.ty))
+        if ty.generic is not None: args.append(self.rty(ty.generic.ty))
         return ty.name + ("<" + ", ".join(args) + ">" if args else "")
 
     def field_attrs(self, f):
@@ -951,13 +993,23 @@ class Emitter:
         return "#[cbor(" + ", ".join([f"{nb}({f.idx})"] + parts) + ")]"
 
     def field_decl_type(self, f):
-        return "T" if f.generic else self.rty(f.ty)
+        if f.generic: return "T"
+        if f.spell == "alias": return self.alias_of(f.ty)
+        if f.spell == "newtype": return "crate::rt::NilOpt"
+        return self.rty(f.ty)
+
+    def alias_of(self, ty):
+        self.aliases = getattr(self, "aliases", {})
+        t = self.rty(ty)
+        if t not in self.aliases:
+            self.aliases[t] = f"Al{len(self.aliases)}"
+        return self.aliases[t]
 
     def emit(self, ty):
         lt = has_lt(ty)
         gen = []
         if lt: gen.append("'a")
-        if ty.kind == "st" and ty.generic is not None: gen.append("T")
+        if ty.generic is not None: gen.append("T")
         g = "<" + ", ".join(gen) + ">" if gen else ""
         out = ["#[derive(Debug, Clone, PartialEq, Encode, Decode, CborLen)]"]
         cb = []
@@ -983,8 +1035,8 @@ class Emitter:
                 if v.tag is not None: va.append(f"tag({v.tag})")
                 attr = "#[cbor(" + ", ".join(va) + ")]" if len(va) > 1 else f"#[{va[0]}]"
                 if v.shape == "u": rows.append(f"{attr} {v.name}")
-                elif v.shape == "p": rows.append(f"{attr} {v.name}(" + ", ".join(f"{self.field_attrs(f)} {self.rty(f.ty)}" for f in v.fields) + ")")
-                else: rows.append(f"{attr} {v.name} {{ " + ", ".join(f"{self.field_attrs(f)} {f.name}: {self.rty(f.ty)}" for f in v.fields) + " }")
+                elif v.shape == "p": rows.append(f"{attr} {v.name}(" + ", ".join(f"{self.field_attrs(f)} {self.field_decl_type(f)}" for f in v.fields) + ")")
+                else: rows.append(f"{attr} {v.name} {{ " + ", ".join(f"{self.field_attrs(f)} {f.name}: {self.field_decl_type(f)}" for f in v.fields) + " }")
             out.append(f"pub enum {ty.name}{g} {{ " + ", ".join(rows) + " }")
         # build + view for the concrete instantiation
         conc = self.rty(ty)
@@ -994,14 +1046,14 @@ class Emitter:
             if ty.shape == "u": out.append(f"    let _ = v; {ty.name}")
             else:
                 out.append("    let fs = v.rec();")
-                inits = [self.build_expr(f.ty, f"&fs[{i}]") for i, f in enumerate(ty.fields)]
+                inits = [self.build_field(f, f"&fs[{i}]") for i, f in enumerate(ty.fields)]
                 if ty.shape == "p": out.append(f"    {ty.name}(" + ", ".join(inits) + ")")
                 else: out.append(f"    {ty.name} {{ " + ", ".join(f"{f.name}: {e}" for f, e in zip(ty.fields, inits)) + " }")
         else:
             out.append("    let (k, fs) = v.variant();")
             out.append("    match k {")
             for i, v in enumerate(ty.variants):
-                inits = [self.build_expr(f.ty, f"&fs[{j}]") for j, f in enumerate(v.fields)]
+                inits = [self.build_field(f, f"&fs[{j}]") for j, f in enumerate(v.fields)]
                 if v.shape == "u": out.append(f"        {i} => {ty.name}::{v.name},")
                 elif v.shape == "p": out.append(f"        {i} => {ty.name}::{v.name}(" + ", ".join(inits) + "),")
                 else: out.append(f"        {i} => {ty.name}::{v.name} {{ " + ", ".join(f"{f.name}: {e}" for f, e in zip(v.fields, inits)) + " },")
@@ -1029,6 +1081,10 @@ class Emitter:
         out.append("}")
         self.items.append("\n".join(out))
 
+    def build_field(self, f, e):
+        x = self.build_expr(f.ty, e)
+        return f"crate::rt::NilOpt({x})" if f.spell == "newtype" else x
+
     def build_expr(self, ty, e):
         k = ty.kind
         if k == "int": return f"({e}).int() as {ty.k}"
@@ -1041,6 +1097,7 @@ class Emitter:
         return f"build_{ty.name}({e})"
 
     def view_field(self, f, e):
+        if f.spell == "newtype": e = f"&({e}).0"
         if f.skip:
             return f"c.item(); c.mute += 1; {self.view_expr(f.ty, e, False)} c.mute -= 1;"
         return f"c.item(); {self.view_expr(f.ty, e, f.is_b)}"
@@ -1065,7 +1122,7 @@ class Emitter:
     def source(self):
         hdr = ["// generated by verifkit/derivegen.py -- do not edit", "#![allow(dead_code, unused_variables, unused_imports, unused_parens, non_snake_case, clippy::all)]",
                "use std::borrow::Cow;", "use minicbor::{Encode, Decode, CborLen};", "use minicbor::bytes::{ByteVec, ByteSlice};", "use crate::rt::{V, Ctx};", ""]
-        body = "\n\n".join(self.items)
+        body = "\n".join(f"pub type {n} = {t};" for t, n in getattr(self, "aliases", {}).items()) + "\n\n" + "\n\n".join(self.items)
         enc_rows, dec_rows = [], []
         for name, ty in self.tops:
             enc_rows.append(f"        \"{name}\" => {{ let x = build_{name}(v); Some((minicbor::to_vec(&x).unwrap(), minicbor::len(&x))) }}")
@@ -1086,8 +1143,9 @@ def contains_codec_blob(ty):
 def style_key(ty):
     k = ty.kind
     if k in ("opt", "vec"): return style_key(ty.e)
-    if k == "st": return "S" + "".join(str(f.style) + ("b" if f.is_b else "n") + style_key(f.ty) for f in ty.fields)
-    if k == "en": return "E" + "".join(("b" if v.is_b else "n") + "".join(str(f.style) + ("b" if f.is_b else "n") + style_key(f.ty) for f in v.fields) for v in ty.variants)
+    sp = lambda f: (f.spell or "-")[0]
+    if k == "st": return "S" + "".join(str(f.style) + ("b" if f.is_b else "n") + sp(f) + style_key(f.ty) for f in ty.fields)
+    if k == "en": return "E" + "".join(("b" if v.is_b else "n") + "".join(str(f.style) + ("b" if f.is_b else "n") + sp(f) + style_key(f.ty) for f in v.fields) for v in ty.variants)
     return ""
 
 
